@@ -889,9 +889,10 @@ class ViewRepresentation(OperatorPlatform, abc.ABC):
             return self
         if self.is_trivial_when_intermediate_():
             return self.sources[0].select_columns(columns)
-        if isinstance(self, SelectColumnsNode):
-            return self.sources[0].select_columns(columns)
-        if isinstance(self, DropColumnsNode):
+        if isinstance(self, (SelectColumnsNode, DropColumnsNode)):
+            unknown = set(columns) - set(self.column_names)
+            if len(unknown) > 0:
+                raise KeyError("selecting unknown columns " + str(unknown))
             return self.sources[0].select_columns(columns)
         return SelectColumnsNode(source=self, columns=columns)
 
